@@ -330,6 +330,54 @@ def check_routes(rep: Report, idx: Index, cg: CallGraph) -> None:
                          method.node, path=path)
             if mutating and not g.csrf and not has_check:
                 no_csrf.append(construct)
+    # R15.6: the groups of an account decide what it may do - they are written only for an administrator
+    from ..pathcond import PathCond as _PC, atoms_of as _atoms, entails as _entails, f_or as _f_or, show as _show
+    seen_m: set[str] = set()
+    n_priv = 0
+    for r in routes:
+        if r.cls is None:
+            continue
+        for verb, method in verb_methods(idx, r.cls).items():
+            if method.qual in seen_m:
+                continue
+            seen_m.add(method.qual)
+            sites = [c for c in ast.walk(method.node) if (isinstance(c, ast.Call) and isinstance(c.func, ast.Attribute)
+                                                           and c.func.attr == 'set_groups')
+                     or (isinstance(c, (ast.Assign, ast.AugAssign)) and any(
+                         isinstance(t, ast.Attribute) and t.attr == 'groups_mask'
+                         for t in (c.targets if isinstance(c, ast.Assign) else [c.target])))]
+            if not sites:
+                continue
+            g = guard_of(idx, r.cls, method)
+            construct = f'{method.rel}::{r.cls.name}.{verb}'
+            hits: list = []
+
+            def on_stmt(st, states, _sites=sites, _hits=hits):
+                if isinstance(st, (ast.If, ast.While, ast.For, ast.With, ast.Try)):
+                    return
+                if any(x is c for c in _sites for x in ast.walk(st)):
+                    _hits.extend((st, x) for x in states)
+            Flow(Disjunctive(_PC(), cap=256), on_stmt=on_stmt).run(method.node, [_PC.initial()])
+            n_priv += 1
+            if g.role >= ADMIN:
+                rep.ok('R15.6', construct, 'groups written for an administrator only', g.describe())
+                continue
+            bad = None
+            for st, x in hits:
+                adm = [('atom', a) for a in _atoms(x[0]) if re.fullmatch(r'(jwt_)?current_user\.is_admin', a)]
+                if not adm or _entails(x[0], _f_or(*adm)) is not True:
+                    bad = (st, x)
+                    break
+            if hits and bad is None:
+                rep.ok('R15.6', construct, 'groups written for an administrator only',
+                       f'{len(hits)} path(s), each implies <current user>.is_admin')
+            else:
+                st, x = bad if bad is not None else (method.node, None)
+                rep.fail('R15.6', construct, 'groups written for an administrator only',
+                         f'`{short(st, 60)}` writes the groups of an account on a path that does not imply the requester is an '
+                         f'administrator (route guard: {g.describe()}; path: {_show(x[0])[:120] if x else "?"}): a media / user '
+                         'login that may edit its own account can give itself any role', st)
+    rep.extra['privilege_write_sites'] = n_priv
     rep.extra['route_verb_pairs'] = pairs
     rep.extra['distinct_handler_verbs'] = len(done)
     rep.extra['classification'] = table
@@ -880,6 +928,7 @@ def analyse(rep: Report) -> None:
     rep.rule('R15.4', 'CsrfProtection.check: re-use refused, token recorded, HMAC over cookie key, '
                       'service and salt, mismatch raises', floor=12)
     rep.rule('R15.5', 'CSRF service names issued vs. checked', floor=0, informational=True)
+    rep.rule('R15.6', 'the groups (roles) of an account are written only on behalf of an administrator', floor=2)
     idx = Index(rep.repo)
     cg = CallGraph(idx)
     check_role_decorators(rep)
